@@ -392,16 +392,24 @@ impl<'a> Explorer<'a> {
         while !frontier.is_empty() {
             res.level_sizes.push(frontier.len());
             let do_transitions = depth < max_depth;
-            let outs = self.parallel(&frontier, opts, do_transitions);
             let mut next = vec![];
             let mut stop = false;
+            let mut wall_stop = false;
+            // A level is worked off in chunks (in frontier order, so the merge stays deterministic):
+            // with the fault scans every expanded state hands back up to ~1 500 post-fault states,
+            // and a level of the 4-key closure has millions of states.
+            const CHUNK: usize = 4096;
+            let mut done_in_level = 0usize;
+            'chunks: for chunk in frontier.chunks(CHUNK) {
+            let outs = self.parallel(chunk, opts, do_transitions);
+            done_in_level += chunk.len();
             for (fi, out) in outs.into_iter().enumerate() {
                 let Some(out) = out else { continue };
                 res.stats.merge(&out.stats);
                 if let Some(m) = out.machinery {
                     res.machinery = Some(m);
                     stop = true;
-                    break;
+                    break 'chunks;
                 }
                 for x in out.viol {
                     if self.ctx.known_rules.iter().any(|k| k == x.rule) {
@@ -411,7 +419,7 @@ impl<'a> Explorer<'a> {
                         res.violations.push(x);
                     }
                 }
-                let parent = frontier[fi];
+                let parent = chunk[fi];
                 let proot = self.states[parent as usize].root as usize;
                 for (h, k) in out.novel {
                     res.fault_states += 1;
@@ -440,7 +448,20 @@ impl<'a> Explorer<'a> {
                     }
                 }
             }
+            if done_in_level < frontier.len() && (t0.elapsed().as_secs_f64() > opts.wall_cap_s || res.violations.len() >= opts.max_violations) {
+                wall_stop = true;
+                break 'chunks;
+            }
+            }
             if stop {
+                break;
+            }
+            if wall_stop {
+                res.cap_hit = Some(if res.violations.len() >= opts.max_violations {
+                    "violation cap reached; exploration stopped early".into()
+                } else {
+                    format!("wall-clock cap {} s hit at depth {} after expanding {} of the {} states of that level", opts.wall_cap_s, depth, done_in_level, frontier.len())
+                });
                 break;
             }
             if !do_transitions {
